@@ -8,12 +8,14 @@ package ociserver
 import (
 	"bytes"
 	"context"
+	"encoding/json"
 	"errors"
 	"io"
 
 	"cuelabs.dev/go/oci/ociregistry"
 	"cuelabs.dev/go/oci/ociregistry/ocimem"
 	"github.com/opencontainers/go-digest"
+	ocispec "github.com/opencontainers/image-spec/specs-go/v1"
 )
 
 type c03world struct {
@@ -38,6 +40,13 @@ func c03prepare(w *c03world, withContent bool) *ocimem.Registry {
 		verifAssert(err == nil, "setup-blob")
 		_, err = r.PushManifest(ctx, "a/b", "t1", w.man, c03mt)
 		verifAssert(err == nil, "setup-manifest")
+		// an image manifest naming the tagged manifest as its subject (a referrer)
+		bd := ociregistry.Descriptor{MediaType: "application/octet-stream", Digest: w.bdig, Size: int64(len(w.blob))}
+		sd := ociregistry.Descriptor{MediaType: c03mt, Digest: w.mdig, Size: int64(len(w.man))}
+		ref, merr := json.Marshal(ocispec.Manifest{MediaType: ocispec.MediaTypeImageManifest, Config: bd, Subject: &sd, ArtifactType: "application/x-artifact"})
+		verifAssert(merr == nil, "setup-referrer")
+		_, err = r.PushManifest(ctx, "a/b", "", ref, ocispec.MediaTypeImageManifest)
+		verifAssert(err == nil, "setup-referrer")
 	}
 	return r
 }
@@ -148,7 +157,7 @@ func c03call(w *c03world, regD, regS *ocimem.Registry, c ociregistry.Interface, 
 	digs := []ociregistry.Digest{w.bdig, w.b2dig, w.mdig}
 	dig := digs[verifChoose("digest"+sfx, 3)]
 	tag := []string{"t1", "t2"}[verifChoose("tag"+sfx, 2)]
-	switch verifChoose("method"+sfx, 14) {
+	switch verifChoose("method"+sfx, 15) {
 	case 0:
 		rd, e1 := regD.GetBlob(ctx, repo, dig)
 		rh, e2 := c.GetBlob(ctx, repo, dig)
@@ -238,6 +247,20 @@ func c03call(w *c03world, regD, regS *ocimem.Registry, c ociregistry.Interface, 
 		e1 := regD.DeleteTag(ctx, repo, tag)
 		e2 := c.DeleteTag(ctx, repo, tag)
 		verifAssert(c03sameError(e1, e2, false), "DeleteTag-same-error")
+	case 14:
+		at := []string{"", "application/x-artifact", "application/x-other"}[verifChoose("artifactType"+sfx, 3)]
+		r1, e1 := ociregistry.All(regD.Referrers(ctx, repo, dig, at))
+		r2, e2 := ociregistry.All(c.Referrers(ctx, repo, dig, at))
+		verifAssert(c03sameError(e1, e2, false), "Referrers-same-error")
+		if e1 == nil && e2 == nil {
+			same := len(r1) == len(r2)
+			if same {
+				for i := range r1 {
+					same = same && c03sameDesc(r1[i], r2[i])
+				}
+			}
+			verifAssert(same, "Referrers-same-items")
+		}
 	default:
 		t1, e1 := ociregistry.All(regD.Tags(ctx, repo, ""))
 		t2, e2 := ociregistry.All(c.Tags(ctx, repo, ""))
